@@ -34,6 +34,30 @@ pub fn boots(out: &RunOut) -> Vec<Boot> {
         let pr = &w.procs[p];
         let mut b = Boot { proc: p, exit: pr.exit, exit_how: pr.exit_how, exit_at: pr.exit_at, stderr: pr.stderr.clone(), ..Default::default() };
         let mut timers_seen: BTreeMap<usize, bool> = BTreeMap::new();
+        // thread names are the primary way to tell workers from the reporter; should the names
+        // ever change, fall back on behaviour: the reporter is the spawned thread that sleeps
+        // or creates files (workers block in poll, they never sleep), every other spawned thread is a worker
+        let mut spawned: Vec<(usize, String)> = Vec::new();
+        let mut reporter_like: std::collections::BTreeSet<usize> = Default::default();
+        for rec in &w.history {
+            match (&rec.ev, rec.task) {
+                (Ev::TaskSpawn { task, proc, name }, _) if *proc == p && name != "main" => spawned.push((*task, name.clone())),
+                (Ev::Sleep { .. }, Some(t)) | (Ev::FileCreate { .. }, Some(t)) if w.tasks[t].proc == p => {
+                    reporter_like.insert(t);
+                }
+                _ => {}
+            }
+        }
+        let names_known = spawned.iter().any(|(_, n)| n.starts_with("worker-"));
+        if !names_known {
+            for (t, n) in &spawned {
+                if reporter_like.contains(t) {
+                    b.reporter_task = true;
+                } else if w.tasks[*t].proc == p && Some(*t) != w.procs[p].main_task {
+                    b.worker_tasks.push((*t, n.clone()));
+                }
+            }
+        }
         for rec in &w.history {
             let tp = rec.task.map(|t| w.tasks[t].proc);
             match &rec.ev {
